@@ -151,6 +151,31 @@ func (f *frame) libCall(callee *ssa.Function, c *ssa.CallCommon, base string, re
 		r := f.resultHavoc(base, resT)
 		f.assume(fmt.Sprintf("(and (bvsle #x0000000000000001 %s) (bvsle %s #x0000000000000004))", r.term, r.term))
 		return r
+	case "time.(time.Time).Nanosecond", "time.(time.Time).Second", "time.(time.Time).Minute", "time.(time.Time).Hour", "time.(time.Time).Day", "time.(time.Time).Month":
+		lo, hi := int64(0), int64(0)
+		switch callee.Name() {
+		case "Nanosecond":
+			used("Nanosecond returns the nanosecond offset within the second, in the range [0, 999999999]")
+			hi = 999999999
+		case "Second":
+			used("Second returns the second offset within the minute, in the range [0, 59]")
+			hi = 59
+		case "Minute":
+			used("Minute returns the minute offset within the hour, in the range [0, 59]")
+			hi = 59
+		case "Hour":
+			used("Hour returns the hour within the day, in the range [0, 23]")
+			hi = 23
+		case "Day":
+			used("Day returns the day of the month (1..31)")
+			lo, hi = 1, 31
+		case "Month":
+			used("Month returns the month of the year (January = 1 .. December = 12)")
+			lo, hi = 1, 12
+		}
+		r := f.resultHavoc(base, resT)
+		f.assume(fmt.Sprintf("(and (bvsle %s %s) (bvsle %s %s))", bvLit(lo, 64), r.term, r.term, bvLit(hi, 64)))
+		return r
 	case "unicode/utf8.RuneLen":
 		used("RuneLen returns the number of bytes (1..4) in the UTF-8 encoding of the rune, or -1 if invalid")
 		r := f.resultHavoc(base, resT)
